@@ -335,32 +335,7 @@ func c15OrganismBatch(c *Ctx, r *rand.Rand, genomes []*genetics.Genome, snaps []
 // c15LargeGenome round trips a long-evolved genome: more than 500 nodes (a chain of node splits), runs of neighbouring
 // disabled genes as add-node leaves them, through the plain encoding and a written population
 func c15LargeGenome(c *Ctx, r *rand.Rand) bool {
-	s := &SnapGenome{Id: 1}
-	s.Traits = []SnapTrait{{Id: 1, Params: make([]uint64, 8)}}
-	nHidden := 500 + r.Intn(40)
-	s.Nodes = append(s.Nodes, SnapNode{Id: 1, Neuron: byte(network.InputNeuron), Act: byte(neatmath.NullActivation), TraitId: 1},
-		SnapNode{Id: 2, Neuron: byte(network.BiasNeuron), Act: byte(neatmath.NullActivation), TraitId: 1},
-		SnapNode{Id: 3, Neuron: byte(network.OutputNeuron), Act: byte(neatmath.SigmoidSteepenedActivation), TraitId: 1})
-	innov := int64(0)
-	gene := func(in, out int, en bool) {
-		innov++
-		w := fbits(r.NormFloat64())
-		s.Genes = append(s.Genes, SnapGene{In: in, Out: out, Innov: innov, W: w, Mut: w, En: en, TraitId: 1})
-	}
-	gene(2, 3, true)
-	prev := 1
-	for i := 0; i < nHidden; i++ {
-		id := 4 + i
-		s.Nodes = append(s.Nodes, SnapNode{Id: id, Neuron: byte(network.HiddenNeuron), Act: byte(neatmath.SigmoidSteepenedActivation), TraitId: 1})
-		// the split link prev -> 3 stays behind disabled, like after an add-node mutation; now and then two in a row
-		gene(prev, 3, false)
-		if r.Intn(4) == 0 {
-			gene(2, id, false)
-		}
-		gene(prev, id, true)
-		prev = id
-	}
-	gene(prev, 3, true)
+	s := largeGenomeSnap(r)
 	g := buildFromSnap(s)
 	if kind, msg := wf(g, nil, true); kind != "" {
 		panic("harness: the large genome is not well-formed: " + msg)
@@ -630,4 +605,36 @@ func c15Experiment(c *Ctx, r *rand.Rand, pool []*genetics.Genome) bool {
 		}
 	}
 	return true
+}
+
+// largeGenomeSnap describes a long-evolved genome: more than 500 nodes (a chain of node splits), runs of neighbouring
+// disabled genes as add-node leaves them
+func largeGenomeSnap(r *rand.Rand) *SnapGenome {
+	s := &SnapGenome{Id: 1}
+	s.Traits = []SnapTrait{{Id: 1, Params: make([]uint64, 8)}}
+	nHidden := 500 + r.Intn(40)
+	s.Nodes = append(s.Nodes, SnapNode{Id: 1, Neuron: byte(network.InputNeuron), Act: byte(neatmath.NullActivation), TraitId: 1},
+		SnapNode{Id: 2, Neuron: byte(network.BiasNeuron), Act: byte(neatmath.NullActivation), TraitId: 1},
+		SnapNode{Id: 3, Neuron: byte(network.OutputNeuron), Act: byte(neatmath.SigmoidSteepenedActivation), TraitId: 1})
+	innov := int64(0)
+	gene := func(in, out int, en bool) {
+		innov++
+		w := fbits(r.NormFloat64())
+		s.Genes = append(s.Genes, SnapGene{In: in, Out: out, Innov: innov, W: w, Mut: w, En: en, TraitId: 1})
+	}
+	gene(2, 3, true)
+	prev := 1
+	for i := 0; i < nHidden; i++ {
+		id := 4 + i
+		s.Nodes = append(s.Nodes, SnapNode{Id: id, Neuron: byte(network.HiddenNeuron), Act: byte(neatmath.SigmoidSteepenedActivation), TraitId: 1})
+		// the split link prev -> 3 stays behind disabled, like after an add-node mutation; now and then two in a row
+		gene(prev, 3, false)
+		if r.Intn(4) == 0 {
+			gene(2, id, false)
+		}
+		gene(prev, id, true)
+		prev = id
+	}
+	gene(prev, 3, true)
+	return s
 }
